@@ -419,7 +419,10 @@ def _gen_storage_program(rng, tier):
     kinds = [k_ for k_ in FAULT_KINDS["C08"][:-1] if k_ != "cold_start"] + ["intact"]  # ("intact": the record exactly as stored, possibly handed over as bytes)
     if tier == "thorough" and rng.random() < 0.5:
         for i in range(len(users)):
-            ops.append({"op": "sweep", "user": i, "what": rng.choice(["subst", "delete", "truncate", "dup", "insert"]), "as_bytes": rng.random() < 0.2})
+            what = rng.choice(["subst", "delete", "truncate", "dup", "insert"])
+            if users[i]["scheme"] in ("sun_md5_crypt", "atlassian_pbkdf2_sha1") and what in ("subst", "insert"):
+                what = "delete"  # (their cheapest verification costs 5-30 ms: no 12-bytes-per-position sweep for them)
+            ops.append({"op": "sweep", "user": i, "what": what, "as_bytes": rng.random() < 0.2})
     for _ in range(rng.randint(8, 40)):
         ops.append({"op": "corrupt", "user": rng.randrange(len(users)), "kind": rng.choice(kinds), "pos": rng.randint(0, 130),
                     "byte": rng.choice(SUBST), "as_bytes": rng.random() < 0.2, "other": rng.randrange(len(users)),
@@ -983,6 +986,8 @@ class _StorageRun:
                     raise RuntimeError(f"extractor cannot read the constant {u['scheme']} hash {h!r}")
                 continue
             kw_ = {"rounds": c} if c is not None else {}
+            if u["scheme"] == "cisco_type7" and u.get("ident") in ("2a", "2y"):
+                kw_["salt"] = 0  # (offset 0 into the key: the one a wrapped-around offset would alias)
             if u["scheme"] == "dlitz_pbkdf2_sha1" and u.get("ident") == "2a":
                 kw_["rounds"] = 400  # (the format's default cost, which it writes as an EMPTY rounds field)
             if u["scheme"] in ("bcrypt", "ldap_bcrypt", "django_bcrypt") and u.get("ident"):
